@@ -298,9 +298,8 @@ int main(int argc, char** argv)
 	Log log(args.out);
 	signal(SIGPIPE, SIG_IGN);
 	signal(SIGALRM, onAlarm);
-	char fb[96];
-	snprintf(fb, sizeof fb, "/verif/build/tmp/c09rec-%d-f10", (int)getpid());
-	mkdir("/verif/build/tmp", 0755);
+	std::string fbs = args.out + ".f10"; // a 10-byte file served for "/f" (next to the trace: the caller's scratch directory)
+	const char* fb = fbs.c_str();
 	{
 		FILE* f = fopen(fb, "wb");
 		if (f) { fputs("0123456789", f); fclose(f); }
